@@ -475,7 +475,7 @@ def _check_mesh_file(ctx, tag, path, d):
                 n += 1
 
 
-def _mesh_roundtrip(ctx, kind, members):
+def _mesh_roundtrip(ctx, kind, members, ids=None):
     ex = _exchange(ctx)
     prm = _params(ctx, kind)
     ext = {'surface': '.smesh', 'volume': '.vmesh'}[kind]
@@ -484,6 +484,8 @@ def _mesh_roundtrip(ctx, kind, members):
         d = _data(ctx, kind, sh, 3, TAGS[i], symbolic_kv=(i == 0), off=2 * i)
         datas.append(d)
         objs.append(_build(ctx, d))
+        if ids is not None:
+            objs[-1].id = ids[i]          # shapes carrying the public id attribute: the files are numbered by position
     top = objs[0] if len(objs) == 1 else _container(ctx, kind, objs)
     write = {'surface': ex.export_smesh, 'volume': ex.export_vmesh}[kind]
     read = {'surface': ex.import_smesh, 'volume': ex.import_vmesh}[kind]
@@ -508,29 +510,30 @@ def _mesh_roundtrip(ctx, kind, members):
                       'compatibility.generate_ctrlpts_weights', 'compatibility.combine_ctrlpts_weights',
                       '_exchange.write_file', '_exchange.read_file'],
           quick=[dict(members=[S_A]), dict(members=[S_B]), dict(members=[S_C]), dict(members=[S_B, S_A]),
-                 dict(members=[S_A, S_C, S_B])],
+                 dict(members=[S_A, S_C, S_B]), dict(members=[S_A, S_C, S_B], ids=[2, 2, 5]), dict(members=[S_B, S_A], ids=[0, 1])],
           thorough=[dict(members=[S_A]), dict(members=[S_B]), dict(members=[S_C]), dict(members=[S_B, S_A]),
+                    dict(members=[S_A, S_C, S_B], ids=[2, 2, 5]), dict(members=[S_B, S_A], ids=[0, 1]),
                     dict(members=[S_A, S_C, S_B]), dict(members=[dict(deg=[3, 2], mult=[[1], [1, 1]], rational=True)]),
                     dict(members=[dict(deg=[2, 3], mult=[[1, 1], []], rational=True), S_C])])
-def smesh_roundtrip(ctx, members):
+def smesh_roundtrip(ctx, members, ids=None):
     """requires: 1..3 valid 3-D surfaces (rational or not), su != sv
        ensures : one file per surface (numbered when more than one) in the documented layout (u fastest);
                  import_smesh(file | directory) gives rational surfaces with the same degrees, knot vectors, sizes,
                  control points, weights (1 for non-rational input) that evaluate to the original spec point"""
-    _mesh_roundtrip(ctx, 'surface', members)
+    _mesh_roundtrip(ctx, 'surface', members, ids)
 
 
 @scenario('C14', fns=['exchange.export_vmesh', 'exchange.import_vmesh', '_exchange.import_vol_mesh',
                       'compatibility.flip_ctrlpts', 'compatibility.flip_ctrlpts_u', 'compatibility.generate_ctrlptsw',
                       'compatibility.generate_ctrlpts_weights', 'compatibility.combine_ctrlpts_weights'],
-          quick=[dict(members=[V_A]), dict(members=[V_B]), dict(members=[V_C, V_B])],
+          quick=[dict(members=[V_A]), dict(members=[V_B]), dict(members=[V_C, V_B]), dict(members=[V_C, V_B], ids=[3, 3])],
           thorough=[dict(members=[V_A]), dict(members=[V_B]), dict(members=[V_C]), dict(members=[V_C, V_B]),
                     dict(members=[V_B, V_A, V_C]), dict(members=[dict(deg=[2, 2, 1], mult=[[1], [], [1, 1]], rational=True)])])
-def vmesh_roundtrip(ctx, members):
+def vmesh_roundtrip(ctx, members, ids=None):
     """requires: 1..3 valid 3-D volumes, pairwise different sizes
        ensures : documented layout (per w layer: u fastest, then v); import_vmesh gives volumes with all
                  size_u*size_v*size_w control points, the same fields and the same evaluated point"""
-    _mesh_roundtrip(ctx, 'volume', members)
+    _mesh_roundtrip(ctx, 'volume', members, ids)
 
 
 # ------------------------------------------------------------------------------------------------
